@@ -264,3 +264,14 @@ def run(ctx):
                 B = P.B(p)
                 check_casts(ctx, B, 'C15.6-de-safety', include_float=False)
                 check_panics(ctx, B, 'C15.6-de-safety', kinds=('index', 'slice', 'bounds', 'unwrap', 'partial'))
+
+    # ---------------- dependencies in erltf ---------------------------------------------------------------------------------
+    # variant tags, unit-struct names, true/false/None are written and read through Atom::new: its interning tables must agree
+    ctx.rule('C15.4-atom-interning', 'every atom the serialiser writes and the deserialiser compares goes through Atom::new, whose two interning tables agree entry by entry', floor=1)
+    from ..etf import check_atom_tables
+    check_atom_tables(ctx, 'C15.4-atom-interning')
+    # maps and structs are built as BTreeMap<OwnedTerm, _> by the serialiser and by the decoder: distinct keys must not compare Equal
+    ctx.rule('C15.3-map-key-order', 'maps are collected into BTreeMap<OwnedTerm, _> (by the serialiser and again by the decoder): two different keys - e.g. two u64 above i64::MAX, carried as big integers - '
+             'must never compare Equal; the comparator rules of C11/C12 re-run here', floor=60)
+    from ..order import map_key_order_rules
+    map_key_order_rules(ctx, 'C15.3-map-key-order', which=('owned',))
